@@ -272,7 +272,7 @@ pub fn aliases_cases() -> Vec<AuthCase> {
 pub fn join_cases() -> Vec<AuthCase> {
     let mut out = vec![];
     for v in 1..=11u8 {
-        for prev in ["only-create", "create+other", "other"] {
+        for prev in ["only-create", "create+other", "other", "none", "other+create"] {
             for target_is_creator in [false, true] {
                 for sender_is_target in [true, false] {
                     for cur in MEMBERSHIPS {
@@ -315,6 +315,8 @@ pub fn join_cases() -> Vec<AuthCase> {
                                 e.prev = match prev {
                                     "only-create" => vec![cid],
                                     "create+other" => vec![cid, "$p:hs1".into()],
+                                    "other+create" => vec!["$p:hs1".into(), cid],
+                                    "none" => vec![],
                                     _ => vec!["$p:hs1".into()],
                                 };
                                 out.push(s.case("member/join", e));
@@ -721,7 +723,52 @@ pub fn all_cases() -> Vec<AuthCase> {
     all.extend(generic_cases());
     all.extend(redaction_cases());
     all.extend(power_levels_cases());
+    let derived = tpi_content_on_other_memberships(&all);
+    all.extend(derived);
     all
+}
+
+/// Member events whose membership is not `invite` but whose content carries a `third_party_invite`
+/// (e.g. copied over from the preceding invite): the specification neither selects the
+/// `m.room.third_party_invite` event for them nor lets it influence the decision. Derived from every
+/// fifth join / knock / leave / ban cell; a matching token event is added to the state.
+pub fn tpi_content_on_other_memberships(base: &[AuthCase]) -> Vec<AuthCase> {
+    let mut out = vec![];
+    let mut k = 0usize;
+    for c in base {
+        if c.event.ty != "m.room.member" || c.event.content.get("third_party_invite").is_some() {
+            continue;
+        }
+        if !matches!(c.event.membership(), Some("join" | "knock" | "leave" | "ban")) {
+            continue;
+        }
+        k += 1;
+        if k % 5 != 0 {
+            continue;
+        }
+        let target = c.event.state_key.clone().unwrap_or_default();
+        for shape in 0..2 {
+            let mut n = c.clone();
+            n.group = format!("{}+tpi_content", c.group);
+            n.event.content["third_party_invite"] = if shape == 0 {
+                json!({"display_name": "x", "signed": {"mxid": target, "token": "tok1", "signatures": {"hs1": {"ed25519:1": "AAAA"}}}})
+            } else {
+                json!({"display_name": "x"})
+            };
+            let proto = c.state.iter().find(|e| e.ty == "m.room.create").cloned();
+            if let Some(mut t) = proto {
+                t.id = "$tpitoken:hs1".into();
+                t.ty = "m.room.third_party_invite".into();
+                t.state_key = Some("tok1".into());
+                t.sender = CREATOR.into();
+                t.content = json!({"display_name": "x", "key_validity_url": "https://id.example/valid", "public_key": "AAAA", "public_keys": []});
+                t.prev = vec!["$p:hs1".into()];
+                n.state.push(t);
+            }
+            out.push(n);
+        }
+    }
+    out
 }
 
 /// Random concretisation on top of a cell: rename users/domains consistently, shift all levels by
